@@ -819,10 +819,75 @@ where
                 }
                 Ok(removed)
             }
+            TrieStorage::DoubleArray { base, check, .. } => {
+                let removed = Self::remove_double_array(base, check, key);
+                if removed {
+                    self.stats.num_keys = self.stats.num_keys.saturating_sub(1);
+                }
+                Ok(removed)
+            }
+            TrieStorage::CompressedSparse { sparse_nodes, .. } => {
+                let removed = Self::remove_compressed_sparse(sparse_nodes, key);
+                if removed {
+                    self.stats.num_keys = self.stats.num_keys.saturating_sub(1);
+                }
+                Ok(removed)
+            }
             _ => {
                 // For other storage types, return false for now
                 Ok(false)
             }
+        }
+    }
+
+    /// Remove a key from double array storage: clear the terminal bit of its state.
+    /// The states themselves stay allocated (as in the Patricia storage), so state ids
+    /// of other keys are unaffected.
+    fn remove_double_array(base: &mut FastVec<u32>, check: &FastVec<u32>, key: &[u8]) -> bool {
+        const TERMINAL_BIT: u32 = 0x8000_0000;
+        const VALUE_MASK: u32 = 0x7FFF_FFFF;
+
+        if base.is_empty() {
+            return false;
+        }
+
+        let mut current_state = 0u32;
+        for &symbol in key {
+            let base_val = match base.get(current_state as usize) {
+                Some(val) => *val,
+                None => return false,
+            };
+            let next_state = (base_val & VALUE_MASK).saturating_add(symbol as u32);
+            match check.get(next_state as usize) {
+                Some(&check_val) if check_val == current_state => current_state = next_state,
+                _ => return false,
+            }
+        }
+
+        let idx = current_state as usize;
+        if idx < base.len() && (base[idx] & TERMINAL_BIT) != 0 {
+            base[idx] &= !TERMINAL_BIT;
+            true
+        } else {
+            false
+        }
+    }
+
+    /// Remove a key from compressed sparse storage: clear the final flag of its node.
+    fn remove_compressed_sparse(sparse_nodes: &mut HashMap<StateId, SparseNode>, key: &[u8]) -> bool {
+        let mut current_state: StateId = 0;
+        for &symbol in key {
+            match sparse_nodes.get(&current_state).and_then(|node| node.children.get(&symbol).copied()) {
+                Some(child) => current_state = child,
+                None => return false,
+            }
+        }
+        match sparse_nodes.get_mut(&current_state) {
+            Some(node) if node.is_final => {
+                node.is_final = false;
+                true
+            }
+            _ => false,
         }
     }
 
